@@ -79,6 +79,50 @@ class SymRange:
     def element(self, i):
         return self.start + self.step * i
 
+    # -- anything that is not an affine map of the elements: the length is concretised (one path per feasible length, the caller's
+    #    assumptions bound it) and the range becomes an ordinary array of its elements
+    def materialize(self):
+        import operator
+
+        import numpy as np
+
+        from . import arrays as A
+
+        n = self.length if isinstance(self.length, int) else operator.index(self.length)
+        start = self.start
+        if is_symbolic(start) and not isinstance(self.length, int):
+            try:
+                start = operator.index(start)
+            except Exception:
+                pass
+        vals = [start + self.step * i for i in range(max(n, 0))]
+        if not any(is_symbolic(v) for v in vals):
+            return np.array(vals) if vals else np.zeros(0, dtype=np.int64)
+        return A.to_symarray(vals)
+
+    def __pow__(self, o):
+        return self.materialize() ** o
+
+    def __getitem__(self, k):
+        return self.materialize()[k]
+
+    def __iter__(self):
+        return iter(self.materialize())
+
+    def __rsub__(self, o):
+        return self._affine(-1, o)
+
+    def __array__(self, dtype=None, copy=None):
+        import numpy as np
+
+        return np.asarray(self.materialize(), dtype=dtype)
+
+    def reshape(self, *a, **k):
+        return self.materialize().reshape(*a, **k)
+
+    def tolist(self):
+        return list(self.materialize())
+
     @property
     def shape(self):
         return (self.length,)
